@@ -93,6 +93,20 @@ template <typename D> struct Chain {
     int w = (int) t.range(0, Ops<D>::count() - 1); int mode = t.weighted({45, 20, 20, 15});   // 0 chain, 1 tokens, 2 limited, 3 bounded
     if (mode == 3 && !Ops<D>::has_bounded()) mode = 2;
     c.log << "widening " << Ops<D>::nm(w) << " on " << T::name() << " dim " << n << " mode " << mode << "\n"; c.tag(std::string(T::name()) + " " + Ops<D>::nm(w) + " mode " + std::to_string(mode));
+    if (t.chance(8)) {
+      // The smaller argument is empty: the widening must be the identity, whether or not the emptiness has been detected yet
+      // ("depends only on the point sets of the arguments"), and no token is consumed.
+      D z = gen_elem(T::kind == 3 ? 6 : 4); Sys mz = model_of(z, n);
+      D e_lazy(n, UNIVERSE); e_lazy.add_constraint(Variable(0) >= 1); e_lazy.add_constraint(Variable(0) <= 0);   // empty, not yet detected
+      D e_marked(n, EMPTY);
+      c.log << " empty smaller argument: z = " << show_sys(mz) << "\n"; c.tag("empty smaller argument");
+      { D a(z), b(z); Ops<D>::plain(w, a, e_lazy, 0); Ops<D>::plain(w, b, e_marked, 0); Sys ma = model_of(a, n), mb = model_of(b, n);
+        c.check("empty_smaller.identity", ref::equal(ma, mz) && ref::equal(mb, mz), [&] { return std::string(Ops<D>::nm(w)) + " with an empty smaller argument is not the identity: " + show_sys(ma) + " (emptiness undetected) / " + show_sys(mb) + " (marked empty) for z=" + show_sys(mz); }); }
+      { D e2(n, UNIVERSE); e2.add_constraint(Variable(0) >= 1); e2.add_constraint(Variable(0) <= 0); unsigned k = 2; D a(z); Ops<D>::plain(w, a, e2, &k);
+        c.check("empty_smaller.tokens", k == 2 && ref::equal(model_of(a, n), mz), [&] { return std::string(Ops<D>::nm(w)) + " with an (undetected) empty smaller argument consumed a token or changed the receiver"; }); }
+      if (!ref::is_empty(mz)) c.nt();
+      return;
+    }
     D x = gen_elem(T::kind == 3 ? 6 : 4); int enlarged = 0, nonstationary = 0;
     const bool value_dep = !T::nnc;
     size_t cap_steps = T::kind == 3 ? 40 : 14 * (2 * n) * (2 * n) + 8;
